@@ -9,9 +9,10 @@ state:
 * every scalar leaf is *settled*: its text is what its own `set()` makes of that text
   (`norm k u = u`, C04's re-set law; for a JoinedString also its members are those its text splits
   into);
-* no pruning is in force (`prune_empty = False` on every sequence), every list member emits at
-  least one flat pair (a member without any flat representation cannot come back), and list
-  indexes stay below CPython's int-digit limit;
+* pruning has nothing to prune: below a sequence with `prune_empty = True` (the default) every
+  emitted flat value is non-empty (`valuesNonempty`); sequences with `prune_empty = False` are
+  unrestricted; every list member emits at least one flat pair (a member without any flat
+  representation cannot come back), and list indexes stay below CPython's int-digit limit;
 * no SparseDict (KF-C01-d/e).
 
 `Tok` — the tokens flat keys are made of: declared names and decimal indexes.
@@ -24,6 +25,9 @@ open Flatland.Flat
     on the separator) -/
 def emitsAny (env : Env) (s : Schema) (e : Elem) : Prop := flatten env [] s e ≠ []
 
+/-- every flat value the element emits is non-empty (then `prune_empty` has nothing to prune) -/
+def valuesNonempty (env : Env) (s : Schema) (e : Elem) : Prop := ∀ p ∈ flatten env [] s e, p.2 ≠ []
+
 mutual
 def Ok (env : Env) : Schema → Elem → Prop
   | .leaf _ _ k, .leaf u => env.norm k u = u
@@ -31,10 +35,12 @@ def Ok (env : Env) : Schema → Elem → Prop
   | .dict _ _ mode fields, .dict ms => mode = .dense ∧ OkFields env fields ms
   | .compound _ _ _ fields, .dict ms => OkFields env fields ms
   | .list _ _ prune mx member, .list ms =>
-    prune = false ∧ ms.length ≤ mx ∧ (∀ i, i < ms.length → (natStr i).length ≤ env.maxDigits) ∧
+    (prune = true → ∀ e ∈ ms, valuesNonempty env member e) ∧ ms.length ≤ mx ∧
+      (∀ i, i < ms.length → (natStr i).length ≤ env.maxDigits) ∧
       ∀ e ∈ ms, Ok env member e ∧ emitsAny env member e
   | .array _ _ prune member, .array ms =>
-    prune = false ∧ (∃ n o k, member = .leaf n o k) ∧ ∀ e ∈ ms, Ok env member e
+    (prune = true → ∀ e ∈ ms, valuesNonempty env member e) ∧ (∃ n o k, member = .leaf n o k) ∧
+      ∀ e ∈ ms, Ok env member e
   | _, _ => False
 def OkFields (env : Env) : List Schema → List (Str × Elem) → Prop
   | [], [] => True
